@@ -11,6 +11,12 @@ Grammar product on the real ``HistParametricModel`` / ``HistFit``:
   fitx    the same with data whose entries lie partly OUTSIDE the bin range (underflow only, overflow only incl. an entry on the
           last edge, both with pending entries, manual heights with underflow / overflow) as initial data and as replacement
           data, histories one op shorter: a density model is scaled by ALL entries of the container (n_entries).
+  entry   the way a fit / model comes into being: next to HistFit(...) in python with a HistContainer (binned / pending entries)
+          or a numpy histogram tuple, the generic kafe2.Fit(container, ...) dispatcher, a HistModelFunction object in place of
+          the plain function, and the round trip through a file - fit.to_file + HistFit.from_file / FitBase.from_file as an
+          OPERATION of the history alphabet (first op = the fit is born from a file; later = written with changed parameters
+          / replaced data), HistParametricModel.to_file + from_file in front of the model histories; every entry point x density
+          flag x bin_evaluation method (a numpy.vectorize wrapper has no source text and cannot be written) x initial data.
 
 Oracle: exact bin integrals (rational arithmetic / 40 digit mpmath, kmc/c13_densities.py) for everything that the statement
 declares exact (antiderivative callable, vectorised antiderivative: 1e-12; scipy quad: 1e-8; Simpson / trapezoid / midpoint on
@@ -23,6 +29,8 @@ independent.  Fresh models are built for every spelling of a method string (lowe
 import collections
 import itertools
 import math
+import os
+import tempfile
 
 import numpy as np
 
@@ -36,7 +44,8 @@ RULE = (
     "over {parameters = p_i, read data, rebin} with every read compared bin by bin; (order) one refinement ladder of three "
     "fresh models; (fit) HistFit x op sequence over {set parameters, replace data (other binning, other number of entries), "
     "read model, read density}; (fitx) the same with data that has underflow / overflow entries, as initial and as replacement "
-    "data.  states = distinct (object kind, density, method, flag, edges, parameter point, number of "
+    "data; (entry) the same histories on a fit made by kafe2.Fit / from a HistModelFunction object, and histories in which the fit "
+    "(model) is written with to_file and replaced by what from_file returns.  states = distinct (object kind, density, method, flag, edges, parameter point, number of "
     "entries) configurations read; non-trivial = history with >= 1 change of parameters / edges / data before a read whose "
     "expected value differs from the previous read's, or (fitx) a density-scaled model read on data with out-of-range entries"
 )
@@ -46,6 +55,7 @@ ASSUMPTIONS = [
     "outside its exactness class a quadrature rule named by bin_evaluation must be that textbook rule (one panel per bin: midpoint = rectangle w f(m), trapezoid w (f(a) + f(b)) / 2, Simpson w (f(a) + 4 f(m) + f(b)) / 6; 1e-12 of bin width x max |density|) at the current parameters and edges, be inexact one degree above its class and converge at its textbook order; method strings are case-insensitive (kafe2 lower-cases them)",
     "convergence order is measured on the sum over bins of |bin content - exact integral| for 32/64/128 uniform bins",
     "parameters are assigned as new list objects (in-place mutation of a list kafe2 holds is an unnotified external change)",
+    "a fit / model read back from a file written by to_file is the same fit / model: same edges, entries, parameter values, density flag and bin evaluation method (kafe2 writes floats with repr, the model function and an antiderivative callable as source text; the test functions refer to np / scipy only, which the reader imports); a numpy.vectorize wrapper has no source text, the 'vectorized' method is therefore not sent through files",
 ]
 
 VALUATIONS = ((1.0, 0.0), (2.0, -1.5), (0.5, 1.0))  # affine maps of the abscissa, exact in binary floating point
@@ -200,6 +210,9 @@ class ModelWorld(object):
     def __init__(self, binning, density, method, flag, v, p_init=0, spelling="lower"):
         from kafe2.fit.histogram.model import HistParametricModel
 
+        via_file = spelling == "file"  # entry point: the model is written with to_file and read back with from_file
+        spelling = "lower" if via_file else spelling
+
         self.binning, self.density, self.method, self.flag, self.v = binning, density, method, flag, v
         s, t = VALUATIONS[v % 3]
         self.points = D.points(density, s, t)
@@ -214,10 +227,14 @@ class ModelWorld(object):
             self.m = HistParametricModel(len(e) - 1, (e[0], e[-1]), d.f, list(self.params), bin_edges=list(e[1:-1]), **kw)
         else:
             self.m = HistParametricModel(len(e) - 1, (e[0], e[-1]), d.f, list(self.params), bin_edges=list(e), **kw)
+        if via_file:
+            self.apply(("file",))
 
     def apply(self, op):
         """-> None for mutators, (observable, actual, expected, tol, kind) for reads"""
-        if op[0] == "set":
+        if op[0] == "file":
+            self.m = _through_file(self.m, type(self.m))
+        elif op[0] == "set":
             self.params = self.points[op[1]]
             self.m.parameters = list(self.params)
         elif op[0] == "rebin":
@@ -233,6 +250,23 @@ class ModelWorld(object):
 
 
 MODEL_OPS = [("set", 0), ("set", 1), ("set", 2), ("read",), ("rebin", "RA"), ("rebin", "RB")]
+MODEL_OPS_F = [("file",)]
+
+
+def _through_file(obj, reader):
+    """obj.to_file(path); -> reader.from_file(path)"""
+    fd, path = tempfile.mkstemp(prefix="c13_", suffix=".yml")
+    os.close(fd)
+    try:
+        obj.to_file(path)
+        return reader.from_file(path)
+    finally:
+        os.remove(path)
+
+
+def file_densities(tier):
+    """densities whose objects are sent through files (one round trip costs 15 - 25 ms, as much as ten other histories)"""
+    return ("mono3", "mixture") if tier == "quick" else tuple(D.DENSITIES)
 
 
 def run_history(make, ops, res=None, final=(("read",),)):
@@ -291,8 +325,11 @@ FIT_OUTSIDE = {
 }
 
 
+FIT_ENTRY_POINTS = ("Fit", "mfobj")  # next to "py" = HistFit(data, function, ...)
+
+
 class FitWorld13(object):
-    def __init__(self, density, method, flag, v, init):
+    def __init__(self, density, method, flag, v, init, entry="py"):
         import kafe2
 
         self.k2 = kafe2
@@ -302,7 +339,16 @@ class FitWorld13(object):
         d = D.DENSITIES[density]
         self.f = d.f
         data, self.edges, self.n = self._data(init)
-        self.fit = kafe2.HistFit(data, d.f, bin_evaluation=bin_eval(density, method), density=flag)
+        if entry == "py":
+            self.fit = kafe2.HistFit(data, d.f, bin_evaluation=bin_eval(density, method), density=flag)
+        elif entry == "Fit":  # the generic dispatcher (containers only)
+            self.fit = kafe2.Fit(data, d.f, bin_evaluation=bin_eval(density, method), density=flag)
+        elif entry == "mfobj":  # a model function object in place of the plain function
+            from kafe2.fit.histogram.model import HistModelFunction
+
+            self.fit = kafe2.HistFit(data, HistModelFunction(d.f), bin_evaluation=bin_eval(density, method), density=flag)
+        else:
+            raise ValueError(entry)
         self.params = tuple(float(x) for x in D.DENSITIES[density].base_points[0])  # the function's defaults
         self.par_names = list(self.fit.parameter_names)
 
@@ -345,6 +391,11 @@ class FitWorld13(object):
         elif op[0] == "data":
             data, self.edges, self.n = self._data(op[1])
             f.data = data
+        elif op[0] == "file":
+            # written and read back: the same fit (edges, entries, parameter values, density flag, method) is expected
+            from kafe2.fit._base import FitBase
+
+            self.fit = _through_file(f, self.k2.HistFit if op[1] == "hist" else FitBase)
         elif op[0] == "read" and op[1] == "model":
             act = [float(x) for x in f.model]
             exp, tol, kind = expected_bins(self.density, self.method, self.params, self.edges)
@@ -371,6 +422,24 @@ FIT_INIT = ("D0", "D2", "D1p")
 # second fit family: data with underflow / overflow entries, as initial data and as replacement data
 FIT_OPS_X = [("data", "U0"), ("data", "O0p"), ("data", "B1"), ("data", "B2")]
 FIT_INIT_X = ("U0", "O0", "B1p", "B2")
+FIT_OPS_F = [("file", "hist"), ("file", "base")]  # to_file + HistFit.from_file / FitBase.from_file
+
+
+def fitf_histories(tier):
+    """(initial data, op sequence) of the file family: every in-range initial data set x every sequence of length <= 2 over
+    FIT_OPS + file ops in which a file op occurs (quick tier: one of the two readers per initial data set, alternating)."""
+    for k, init in enumerate(FIT_INIT):
+        fops = FIT_OPS_F if tier == "thorough" else [FIT_OPS_F[k % 2]]
+        for ops in _seqs(FIT_OPS + fops, 2):
+            if any(o in fops for o in ops):
+                yield init, ops
+
+
+def modelf_histories(tier):
+    """op sequences of the model-level file family: all sequences of length <= 2 over MODEL_OPS + file in which file occurs"""
+    for ops in _seqs(MODEL_OPS + MODEL_OPS_F, 2):
+        if any(o in MODEL_OPS_F for o in ops):
+            yield ops
 
 
 def fitx_histories(tier):
@@ -417,8 +486,20 @@ def bound(tier, seed):
         "underflow / overflow entries + the 3 in-range ones) x ALL op sequences of length <= %d over these 8 ops + 4 replacement data "
         "sets with underflow / overflow entries (underflow only, overflow only incl. entries on the last edge and pending, both, "
         "manual heights with underflow and overflow) in which out-of-range data occurs; fresh models also for the upper-case and "
-        "capitalised spelling of every method string; valuation %d"
-        % (depth(tier, "model"), "/".join(str(n) for n in LADDER), depth(tier, "fit"), depth(tier, "fit") - 1, seed % 3)
+        "capitalised spelling of every method string; entry points: kafe2.Fit(container) and HistFit(data, HistModelFunction object) x all "
+        "densities x methods x flags x initial data x ALL op sequences of length <= %d; file round trip (fit.to_file + HistFit.from_file%s, "
+        "HistParametricModel.to_file + from_file) as an op: densities {%s} x 6 methods (not the numpy.vectorize wrapper) x flags x "
+        "(fit: 3 initial data sets; model: 5 binnings) x ALL op sequences of length <= 2 over the family's ops + the file op(s) in which a file op occurs; valuation %d"
+        % (
+            depth(tier, "model"),
+            "/".join(str(n) for n in LADDER),
+            depth(tier, "fit"),
+            depth(tier, "fit") - 1,
+            depth(tier, "fit") - 1,
+            " and FitBase.from_file" if tier == "thorough" else " / FitBase.from_file alternating over the initial data sets",
+            ", ".join(file_densities(tier)),
+            seed % 3,
+        )
     )
 
 
@@ -490,6 +571,18 @@ def run_job(spec):
                     _book(res, "model", cfg, ops, reads, out)
                     if out:
                         _report(res, seen, "model", cfg, make, ops, (("read",),), out[0])
+                # entry point file: the model written with to_file and read back with from_file, before / after another op
+                if density in file_densities(tier) and method != "vectorized":
+                    for ops in modelf_histories(tier):
+                        out, reads = run_history(make, ops, res)
+                        res.observe((cfg, ops, reads))
+                        _book(res, "model", cfg, ops, reads, out)
+                        res.facts["entry:model-file:%s" % flag] += 1
+                        res.facts["entry:model-file:method:" + method] += 1
+                        if not out:
+                            res.nontriv(("modelf", cfg, ops))
+                        if out:
+                            _report(res, seen, "model", cfg, make, ops, (("read",),), out[0])
         res.max_depth = L
     elif kind == "fit":
         L = depth(tier, "fit")
@@ -517,6 +610,39 @@ def run_job(spec):
                         res.facts["fitx:data:" + o[1]] += 1
                 if out:
                     _report(res, seen, "fit", cfg, make, ops, FIT_FINAL, out[0])
+            # entry points other than HistFit(data, function): the dispatcher kafe2.Fit (containers), a HistModelFunction object
+            for entry in FIT_ENTRY_POINTS:
+                for init in FIT_INIT:
+                    if entry == "Fit" and init.rstrip("p") in FIT_HEIGHTS:
+                        continue  # numpy histogram tuple: the dispatcher does not take it for histogram data
+                    cfg = (density, method, flag, v, init, entry)
+                    make = _maker("fit", cfg)
+                    for ops in _seqs(FIT_OPS, L - 1):
+                        out, reads = run_history(make, ops, res, final=FIT_FINAL)
+                        res.observe((cfg, ops, reads))
+                        _book(res, "fit", cfg, ops, reads, out)
+                        res.facts["entry:%s:%s" % (entry, flag)] += 1
+                        if out:
+                            _report(res, seen, "fit", cfg, make, ops, FIT_FINAL, out[0])
+            # ... and a file: to_file + from_file as an operation (first: the fit is born from the file; later: written with
+            # changed parameter values / replaced data)
+            if density in file_densities(tier) and method != "vectorized":
+                for init, ops in fitf_histories(tier):
+                    cfg = (density, method, flag, v, init)
+                    make = _maker("fit", cfg)
+                    out, reads = run_history(make, ops, res, final=FIT_FINAL)
+                    res.observe((cfg, ops, reads))
+                    _book(res, "fit", cfg, ops, reads, out)
+                    for o in ops:
+                        if o in FIT_OPS_F:
+                            res.facts["entry:file-%s:%s" % (o[1], flag)] += 1
+                    res.facts["entry:file:init:" + init] += 1
+                    res.facts["entry:file:method:" + method] += 1
+                    res.facts["entry:file:" + ("first" if ops[0] in FIT_OPS_F else "later")] += 1
+                    if not out:
+                        res.nontriv(("fitf", cfg, ops))
+                    if out:
+                        _report(res, seen, "fit", cfg, make, ops, FIT_FINAL, out[0])
         res.max_depth = L
     res.sample(dict(job=list(spec), executions=res.executions, evaluations=res.evaluations), cap=1)
     return res.as_dict()
@@ -527,8 +653,9 @@ def _maker(kind, cfg):
         binning, density, method, flag, v, p = cfg[:6]
         spelling = cfg[6] if len(cfg) > 6 else "lower"
         return lambda: ModelWorld(binning, density, method, flag, v, p, spelling)
-    density, method, flag, v, init = cfg
-    return lambda: FitWorld13(density, method, flag, v, init)
+    density, method, flag, v, init = cfg[:5]
+    entry = cfg[5] if len(cfg) > 5 else "py"
+    return lambda: FitWorld13(density, method, flag, v, init, entry)
 
 
 def _book(res, kind, cfg, ops, reads, out):
@@ -671,4 +798,11 @@ def vacuity_guards(tot, tier):
     ) and all(f.get("fitx:data:" + o[1], 0) > 0 for o in FIT_OPS_X)
     yield "method strings in lower / upper / capitalised spelling", all(f.get("model:spelling:" + k, 0) > 0 for k in SPELLINGS)
     yield "both density flags on fit level", f.get("fit:flag:True", 0) > 0 and f.get("fit:flag:False", 0) > 0
+    yield "entry points kafe2.Fit and HistModelFunction object with both density flags", all(f.get("entry:%s:%s" % (e, fl), 0) > 0 for e in FIT_ENTRY_POINTS for fl in (True, False))
+    yield "fits read back from files through HistFit.from_file and FitBase.from_file with both density flags, as first and as later op, for every initial data set and method", all(
+        f.get("entry:file-%s:%s" % (r, fl), 0) > 0 for r in ("hist", "base") for fl in (True, False)
+    ) and all(f.get("entry:file:" + k, 0) > 0 for k in ("first", "later")) and all(f.get("entry:file:init:" + k, 0) > 0 for k in FIT_INIT) and all(
+        f.get("entry:file:method:" + m, 0) > 0 and f.get("entry:model-file:method:" + m, 0) > 0 for m in METHODS if m != "vectorized"
+    )
+    yield "models read back from files with both density flags", f.get("entry:model-file:True", 0) > 0 and f.get("entry:model-file:False", 0) > 0
     yield "reads after a change of parameters / edges / data with a different expected value", f.get("model:read-after-change", 0) > 0 and f.get("fit:read-after-change", 0) > 0
